@@ -9,6 +9,7 @@ use crate::g::progen::*;
 use crate::harness::*;
 use crate::proto::*;
 use proptest::prelude::*;
+use serde::{Deserialize, Serialize};
 use serde_json::json;
 
 fn lsp_ty(p: &Prog, t: &T) -> Option<String> {
@@ -115,8 +116,203 @@ impl Prop for DefinitionAndHover {
     }
 }
 
+
+/// Signature scopes: default values of parameters are resolved in the scope AROUND the function
+/// (they are evaluated at the call site), never against the function's own parameters.
+#[derive(Clone, Debug, Serialize, Deserialize)]
+pub struct SigCase {
+    /// file-level functions: (name index, value)
+    pub globals: Vec<(u8, i8)>,
+    /// parameters: (name index, default kind, referenced global, constant)
+    pub params: Vec<(u8, u8, u8, i8)>,
+    /// index of the first parameter that has a default value
+    pub first_default: u8,
+    pub non_ascii: bool,
+    pub method: bool,
+}
+
+const SIG_NAMES: [&str; 6] = ["scale", "base", "width", "k", "n", "step"];
+
+struct SigUse {
+    name: String,
+    offset: usize,
+    decl: (usize, usize),
+    ty: &'static str,
+    in_default: bool,
+    shadow: bool,
+}
+
+fn build_sig(c: &SigCase) -> (String, Vec<SigUse>) {
+    let mut src = String::new();
+    let mut uses = vec![];
+    if c.non_ascii {
+        src.push_str("// défauts 日本語 😀\n");
+    }
+    let mut gl: Vec<(usize, (usize, usize))> = vec![];
+    for (n, v) in &c.globals {
+        let n = *n as usize % SIG_NAMES.len();
+        if gl.iter().any(|g| g.0 == n) {
+            continue;
+        }
+        src.push_str("fn ");
+        let s = src.len();
+        src.push_str(SIG_NAMES[n]);
+        gl.push((n, (s, src.len())));
+        src.push_str(&format!("() -> int = {}\n", *v as i64 + 200));
+    }
+    let mut ps: Vec<usize> = vec![];
+    let mut params = vec![];
+    for p in &c.params {
+        let n = p.0 as usize % SIG_NAMES.len();
+        if ps.contains(&n) {
+            continue;
+        }
+        ps.push(n);
+        params.push((n, p.1, p.2, p.3));
+    }
+    src.push_str("fn sig_id(a: int) -> int = a\nfn sig_add(a: int, b: int) -> int = a + b\n");
+    if c.method {
+        src.push_str("type Holder = {\n  v: int\n}\nextend Holder {\n  fn sig_f(self");
+    } else {
+        src.push_str("fn sig_f(");
+    }
+    let fd = c.first_default as usize % (params.len() + 1);
+    let mut pdecl: Vec<(usize, (usize, usize))> = vec![];
+    let mut pending = vec![];
+    for (i, (n, kind, g, k)) in params.iter().enumerate() {
+        if i > 0 || c.method {
+            src.push_str(", ");
+        }
+        let s = src.len();
+        src.push_str(SIG_NAMES[*n]);
+        pdecl.push((*n, (s, src.len())));
+        src.push_str(": int");
+        if i >= fd {
+            src.push_str(" = ");
+            if gl.is_empty() || kind % 4 == 0 {
+                src.push_str(&format!("{}", *k as i64 + 300));
+            } else {
+                // operators are avoided on purpose: HEAD rejects `g() + 1` in a default value ("Interface `Num` is not
+                // implemented for type `int`"), which is outside this property; helper calls nest instead
+                let refs = if kind % 4 == 3 && gl.len() > 1 { vec![*g as usize % gl.len(), (*g as usize + 1) % gl.len()] } else { vec![*g as usize % gl.len()] };
+                src.push_str(if refs.len() == 2 { "sig_add(" } else if kind % 4 == 2 { "sig_id(" } else { "" });
+                for (j, r) in refs.iter().enumerate() {
+                    if j > 0 {
+                        src.push_str(", ");
+                    }
+                    pending.push((src.len(), gl[*r].0, gl[*r].1));
+                    src.push_str(SIG_NAMES[gl[*r].0]);
+                    src.push_str("()");
+                }
+                src.push_str(if refs.len() == 2 || kind % 4 == 2 { ")" } else { "" });
+            }
+        }
+    }
+    for (off, n, decl) in pending {
+        uses.push(SigUse { name: SIG_NAMES[n].into(), offset: off, decl, ty: "fn() -> int", in_default: true, shadow: pdecl.iter().any(|p| p.0 == n) });
+    }
+    src.push_str(") -> int {\n    0");
+    for (n, decl) in &pdecl {
+        src.push_str(" + ");
+        uses.push(SigUse { name: SIG_NAMES[*n].into(), offset: src.len(), decl: *decl, ty: "int", in_default: false, shadow: gl.iter().any(|g| g.0 == *n) });
+        src.push_str(SIG_NAMES[*n]);
+    }
+    src.push_str("\n}\n");
+    if c.method {
+        src.push_str("}\nlet sig_h = Holder(1)\n");
+    }
+    // body of a later function: the globals are visible again
+    src.push_str("fn sig_after() -> int {\n    0");
+    for (n, decl) in &gl {
+        src.push_str(" + ");
+        uses.push(SigUse { name: SIG_NAMES[*n].into(), offset: src.len(), decl: *decl, ty: "fn() -> int", in_default: false, shadow: false });
+        src.push_str(SIG_NAMES[*n]);
+        src.push_str("()");
+    }
+    src.push_str("\n}\n");
+    let call = |nargs: usize| {
+        let args = (0..nargs).map(|i| format!("{}", i + 1)).collect::<Vec<_>>().join(", ");
+        if c.method { format!("println(sig_h.sig_f({args}))\n") } else { format!("println(sig_f({args}))\n") }
+    };
+    src.push_str(&call(fd));
+    src.push_str(&call(params.len()));
+    src.push_str("println(sig_after())\n");
+    (src, uses)
+}
+
+pub struct SignatureScopes;
+
+impl Prop for SignatureScopes {
+    type Case = SigCase;
+    fn name(&self) -> &'static str {
+        "signature_scopes"
+    }
+    fn rule(&self) -> &'static str {
+        "one case = a program with 1-3 file-level functions and a function or method whose 1-4 parameters are named from the same six-name pool, with default values (constants, `g()`, `sig_id(g())`, `sig_add(g(), h())`) that mention file-level functions which may share a name with an EARLIER or LATER parameter of the same signature; every identifier in a default value must go to the file-level declaration (defaults are evaluated at the call site, outside the parameter scope) and hover must say fn() -> int, every parameter use in the body must go to the parameter (hover int), and the same names in a later function body go to the file-level declarations again; non-trivial = a default value mentions a name that is also a parameter of the same signature; distinct by program text"
+    }
+    fn n_cases(&self, tier: Tier) -> u32 {
+        tier.pick(1500, 20000)
+    }
+    fn strategy(&self, _tier: Tier, _f: &Findings) -> BoxedStrategy<Self::Case> {
+        (proptest::collection::vec((0u8..6, any::<i8>()), 1..=3), proptest::collection::vec((0u8..6, 0u8..4, 0u8..3, any::<i8>()), 1..=4), 0u8..5, any::<bool>(), any::<bool>())
+            .prop_map(|(globals, params, first_default, non_ascii, method)| SigCase { globals, params, first_default, non_ascii, method })
+            .boxed()
+    }
+    fn judge(&self, c: &Self::Case, env: &mut Env) -> Verdict {
+        let (src, uses) = build_sig(c);
+        let mut st = CaseStats::one();
+        let points: Vec<(String, usize)> = uses.iter().map(|u| ("main.abra".to_string(), u.offset)).collect();
+        let r = match env.lsp(&single(src.clone()), "main.abra", false, points, true) {
+            Exec::Ok(r) => r,
+            Exec::Abort(f) => return Verdict::Fail(f.detail(json!({"src": src}))),
+            Exec::Inconclusive(s) => return Verdict::Inconclusive(s),
+        };
+        if let Some(p) = &r.analysis_panic {
+            return Verdict::Fail(Failure::new("HostPanic", norm_msg(&p.msg)).feat(format!("file:{}", base(&p.file))).detail(json!({"src": src, "panic": p})));
+        }
+        if let Some((_, off, kind, p)) = &r.query_panic {
+            return Verdict::Fail(Failure::new("HostPanic", norm_msg(&p.msg)).feat(format!("file:{}", base(&p.file))).feat(format!("lsp:{kind}")).detail(json!({"src": src, "offset": off, "panic": p})));
+        }
+        if r.answers.len() != uses.len() {
+            return Verdict::Inconclusive("lsp answered fewer points than asked".into());
+        }
+        st.evals = uses.len() as u64;
+        // a rejected program still has a resolution for every name; hover is compared only when the program checks
+        let accepted = r.diags.is_empty();
+        st.labels.push((if accepted { "accepted".into() } else { "rejected-by-checker".into() }, 1));
+        let mut nt = false;
+        for (u, a) in uses.iter().zip(r.answers.iter()) {
+            let place = if u.in_default { "default value" } else { "function body" };
+            match &a.definition {
+                Some((file, s, e)) if file == "main.abra" && (*s, *e) == u.decl => {}
+                other => {
+                    return Verdict::Fail(
+                        Failure::new("ModelMismatch", format!("go-to-definition for `{}` in a {place} at offset {} returns {:?}, the declaration in scope there is at {:?}", u.name, u.offset, other, u.decl))
+                            .feat(if u.in_default { "default-value" } else { "body" })
+                            .feat(if u.shadow { "shadowed" } else { "unshadowed" })
+                            .detail(json!({"src": src, "offset": u.offset, "answer": a})),
+                    );
+                }
+            }
+            if accepted && a.ty.as_deref() != Some(u.ty) {
+                return Verdict::Fail(Failure::new("ModelMismatch", format!("hover for `{}` in a {place} at offset {} reports {:?}, the type is {}", u.name, u.offset, a.ty, u.ty)).feat("hover").detail(json!({"src": src, "offset": u.offset, "answer": a})));
+            }
+            if u.in_default && u.shadow {
+                nt = true;
+            }
+        }
+        if nt {
+            st.nt(&src);
+            st.sample = Some(json!({"src": src, "queries": uses.len()}));
+        }
+        Verdict::Pass(st)
+    }
+}
+
 pub fn run(ctx: &mut Ctx) {
     ctx.assume("the expected declaration of every occurrence comes from the generator's scope model (innermost binding), which the differential check C02 validates behaviourally on the same programs");
     ctx.assume("hover is compared only where the generator knows the declared type (let/var, parameters, loop counters, functions); pattern bindings are checked for go-to-definition only");
     ctx.prop(&DefinitionAndHover);
+    ctx.assume("signature_scopes: parameter default values are resolved outside the parameter scope (resolve_names_func_helper resolves them before registering any parameter; the translator evaluates them at the call site)");
+    ctx.prop(&SignatureScopes);
 }
